@@ -43,6 +43,8 @@ Print Assumptions roundtrip_point.
 Theorem roundtrip_cap : forall c, cap_ok c -> decode_cap (encode_cap c) = Ok c.
 Proof. exact C09_Lossless.roundtrip_cap. Qed.
 Print Assumptions roundtrip_cap.
+(** guard: the 64-bit patterns of a valid rectangle ([rect_ok] = patterns + translated s2.Rect.IsValid;
+    Rect.Decode refuses invalid rectangles since 41c9631, as the C++ decoder does) *)
 Theorem roundtrip_rect : forall r, rect_ok r -> decode_rect (encode_rect r) = Ok r.
 Proof. exact C09_Lossless.roundtrip_rect. Qed.
 Print Assumptions roundtrip_rect.
@@ -63,7 +65,7 @@ Theorem roundtrip_polyline : forall ps, Forall vertex_ok ps -> len ps <= s2_maxE
   decode_polyline (encode_polyline ps) = Ok ps.
 Proof. exact C09_Lossless.roundtrip_polyline. Qed.
 Print Assumptions roundtrip_polyline.
-(** vertices in order, origin flag, depth, bound *)
+(** vertices in order, origin flag, depth, bound; [loop_ok]: finite vertices, depth in its field, a valid bound Rect *)
 Theorem roundtrip_loop : forall l, loop_ok l -> decode_loop (encode_loop l) = Ok l.
 Proof. exact C09_Lossless.roundtrip_loop. Qed.
 Print Assumptions roundtrip_loop.
@@ -151,6 +153,13 @@ Theorem compressed_zero_sign_old_refuted :
   /\ x_level (xyz_face_siti p) = -1.
 Proof. exact zero_sign_old_refuted. Qed.
 Print Assumptions compressed_zero_sign_old_refuted.
+
+(** values outside the types' own validity predicates do not round-trip (intended): an invalid Rect *)
+Theorem rect_invalid_does_not_roundtrip : forall r,
+  0 <= r_lat_lo r < 2 ^ 64 -> 0 <= r_lat_hi r < 2 ^ 64 -> 0 <= r_lng_lo r < 2 ^ 64 -> 0 <= r_lng_hi r < 2 ^ 64 ->
+  rect_valid r = false -> decode_rect (encode_rect r) = Err.
+Proof. exact rect_invalid_refuted. Qed.
+Print Assumptions rect_invalid_does_not_roundtrip.
 
 (** * FINDINGS on the unchanged tree: where "every encodable value" fails *)
 (** a loop without vertices does not survive the compressed format *)
